@@ -38,7 +38,7 @@ Proof. apply broadcast_lossy. Qed.
     the moment of the request (C08_only_sender_creates_deliveries), and executing an event never
     draws: the oracle cursor moves only inside transmissions. *)
 Theorem C10_only_transmissions_draw (h : sstate F PS) now n a :
-  match a with ASend _ _ | ABroadcast _ => False | _ => True end ->
+  match a with ASend _ _ | ABroadcast _ | ABcastDst _ _ => False | _ => True end ->
   s_cursor (fst (fst (do_action A cfg h now n a))) = s_cursor h.
 Proof.
   destruct a; intros Hn; try contradiction; simpl;
